@@ -269,6 +269,49 @@ pub fn c18(h: &mut H) {
             h.expect(field(&sig, "s").significant_bits() == p.ls, "C18.s_len", "signature randomness s does not have exactly ls bits", &[h.last()]);
         }
     }
+    // sizes: no attribute at all, many attributes, default count
+    {
+        let k = keygen(h, 0);
+        h.expect(k.bases.is_empty(), "C18.bases_zero", "Bases::generate(pk, 0) is not empty", &[h.last()]);
+        let (b8, _) = call(h, "cl.bases", vec![k.pk.clone(), json!(9)], vec![]);
+        let id = h.last();
+        if let Some(v) = b8.ok() {
+            let l: Vec<Integer> = v.as_array().unwrap().iter().map(int_of).collect();
+            let set: std::collections::HashSet<String> = l.iter().map(|x| x.to_string()).collect();
+            h.expect(l.len() == 9 && set.len() == 9, "C18.bases_many", "Bases::generate(pk, 9) did not return 9 distinct bases", &[id]);
+            let el: Vec<(String, Integer)> = l.iter().enumerate().map(|(i, a)| (format!("a_{}", i), a.clone())).collect();
+            check_group(h, "nine bases", &k.n_mod, &k.p, &k.q, &el, p.secparam, id);
+        }
+        for (nn, want) in [(Value::Null, 1usize), (json!(0), 0), (json!(7), 7)] {
+            let (o, _) = call(h, "cl.cpk", vec![iv(&k.n_mod), nn.clone()], vec![]);
+            let id = h.last();
+            if let Some(v) = o.ok() {
+                let gs: Vec<Integer> = v["g_bases"].as_array().unwrap().iter().map(int_of).collect();
+                h.expect(gs.len() == want, "C18.cpk_count_sizes", &format!("commitment key for n_attributes = {} has {} bases", nn, gs.len()), &[id]);
+                let mut el: Vec<(String, Integer)> = vec![("h".into(), field(v, "h"))];
+                el.extend(gs.iter().enumerate().map(|(i, g)| (format!("g_{}", i), g.clone())));
+                check_group(h, "commitment key sizes", &k.n_mod, &k.p, &k.q, &el, p.secparam, id);
+                let typed: CL03CommitmentPublicKey = serde_json::from_value(v.clone()).unwrap();
+                let back: CL03CommitmentPublicKey = serde_json::from_str(&serde_json::to_string(&typed).unwrap()).unwrap();
+                h.expect(back == typed, "C18.cpk_json_sizes", "commitment key does not survive JSON", &[id]);
+            } else {
+                h.expect(false, "C18.cpk_sizes_panic", "CL03CommitmentPublicKey::generate panicked", &[id]);
+            }
+        }
+        // byte encodings of values with leading zero bytes / small values
+        let small_pk = json!({"N": iv(&k.n_mod), "b": iv(&Integer::from(5)), "c": iv(&Integer::from(0))});
+        let (pb, _) = call(h, "cl.pkbytes", vec![small_pk.clone()], vec![]);
+        if let Some(Value::String(hx)) = pb.ok() {
+            let (back, _) = call(h, "cl.pkfrombytes", vec![json!(hx)], vec![]);
+            h.expect(back.ok() == Some(&small_pk), "C18.pk_bytes_small", "public key with small components does not survive its byte encoding", &[h.last()]);
+        }
+        let small_sig = json!({"e": iv(&Integer::from(3)), "s": iv(&Integer::from(0)), "v": iv(&Integer::from(255))});
+        let (sb, _) = call(h, "cl.sigbytes", vec![small_sig.clone()], vec![]);
+        if let Some(Value::String(hx)) = sb.ok() {
+            let (back, _) = call(h, "cl.sigfrombytes", vec![json!(hx)], vec![]);
+            h.expect(back.ok() == Some(&small_sig), "C18.sig_bytes_small", "signature with small components does not survive its byte encoding", &[h.last()]);
+        }
+    }
     // boundary draws injected into random_qr (bases) and the commitment-key generation:
     // r = N-1, 0, 1 square to 1, 0, 1 and must be redrawn
     {
